@@ -112,21 +112,22 @@ def outcomeCode : Outcome → String
   | .edgeFaceDifference => "edge_face_difference" | .edgeNodeDifference => "edge_node_difference"
   | .gradient => "gradient" | .valueError => "ValueError" | .notImplemented => "NotImplementedError"
 
-def handle (cmd : String) (args : List Int) : Option String :=
-  match cmd with
-  | "C16.wf" => do
+/-- every command of this driver, by name: the dispatch below IS a lookup in this table, so
+    `C16.commands` (what the harness's start-up self-test asks for) cannot drift from it -/
+def table : List (String × (List Int → Option String)) :=
+  [ ("C16.wf", fun args => do
       let (nn, nf, en, ef) ← run (do let a ← nat; let b ← nat; let en ← enP; let ef ← efP; pure (a, b, en, ef)) args
-      pure (encBool (decide (TablesWF nn nf en ef)))
+      pure (encBool (decide (TablesWF nn nf en ef))))
   -- distance tables -----------------------------------------------------------------------
-  | "C16.dist.node" => do
+  , ("C16.dist.node", fun args => do
       let (eps, lon, lat, en, impl) ← run (do
         let eps ← float; let lon ← floats; let lat ← floats; let en ← enP; let impl ← floats
         pure (eps, lon, lat, en, impl)) args
       let oracle := en.map (fun p => oracleDist floatTrig fSqrt fAtan2
         (nodeArr lon p.1) (nodeArr lat p.1) (nodeArr lon p.2) (nodeArr lat p.2))
       let model := edgeNodeDist floatTrig (nodeArr lon) (nodeArr lat) en
-      pure (encVerdict (judgeDist eps oracle model impl (en.map (fun _ => false))))
-  | "C16.dist.face" => do
+      pure (encVerdict (judgeDist eps oracle model impl (en.map (fun _ => false)))))
+  , ("C16.dist.face", fun args => do
       let (eps, lon, lat, ef, impl) ← run (do
         let eps ← float; let lon ← floats; let lat ← floats; let ef ← efP; let impl ← floats
         pure (eps, lon, lat, ef, impl)) args
@@ -135,53 +136,53 @@ def handle (cmd : String) (args : List Int) : Option String :=
             (faceArr lon p.1) (faceArr lat p.1) (faceArr lon g) (faceArr lat g)
         | none => 0.0)
       let model := edgeFaceDist floatTrig (faceArr lon) (faceArr lat) ef
-      pure (encVerdict (judgeDist eps oracle model impl (ef.map (fun p => p.2.isNone))))
+      pure (encVerdict (judgeDist eps oracle model impl (ef.map (fun p => p.2.isNone)))))
   -- the same judgements against DIRECTIONS given as Cartesian positions of any radius
-  | "C16.dist.node.xyz" => do
+  , ("C16.dist.node.xyz", fun args => do
       let (eps, x, y, z, en, impl) ← run (do
         let eps ← float; let x ← floats; let y ← floats; let z ← floats; let en ← enP; let impl ← floats
         pure (eps, x, y, z, en, impl)) args
       let c := nodeV3 x y z
       let oracle := en.map (fun p => oracleAngle Float.sqrt Float.atan2 (c p.1) (c p.2))
       let model := edgeNodeDistXYZ Float.acos Float.sqrt c en
-      pure (encVerdict (judgeDist eps oracle model impl (en.map (fun _ => false))))
-  | "C16.dist.face.xyz" => do
+      pure (encVerdict (judgeDist eps oracle model impl (en.map (fun _ => false)))))
+  , ("C16.dist.face.xyz", fun args => do
       let (eps, x, y, z, ef, impl) ← run (do
         let eps ← float; let x ← floats; let y ← floats; let z ← floats; let ef ← efP; let impl ← floats
         pure (eps, x, y, z, ef, impl)) args
       let c := faceV3 x y z
       let model := edgeFaceDistXYZ Float.acos Float.sqrt c ef
-      pure (encVerdict (judgeDist eps (oracleFaceXYZ c ef) model impl (ef.map (fun p => p.2.isNone))))
-  | "C16.oracle.face.xyz" => do
+      pure (encVerdict (judgeDist eps (oracleFaceXYZ c ef) model impl (ef.map (fun p => p.2.isNone)))))
+  , ("C16.oracle.face.xyz", fun args => do
       let (x, y, z, ef) ← run (do
         let x ← floats; let y ← floats; let z ← floats; let ef ← efP; pure (x, y, z, ef)) args
-      pure (encFloats (oracleFaceXYZ (faceV3 x y z) ef))
-  | "C16.oracle.node.xyz" => do
+      pure (encFloats (oracleFaceXYZ (faceV3 x y z) ef)))
+  , ("C16.oracle.node.xyz", fun args => do
       let (x, y, z, en) ← run (do
         let x ← floats; let y ← floats; let z ← floats; let en ← enP; pure (x, y, z, en)) args
       let c := nodeV3 x y z
-      pure (encFloats (en.map (fun p => oracleAngle Float.sqrt Float.atan2 (c p.1) (c p.2))))
-  | "C16.oracle.face" => do
+      pure (encFloats (en.map (fun p => oracleAngle Float.sqrt Float.atan2 (c p.1) (c p.2)))))
+  , ("C16.oracle.face", fun args => do
       let (lon, lat, ef) ← run (do let lon ← floats; let lat ← floats; let ef ← efP; pure (lon, lat, ef)) args
       pure (encFloats (ef.map (fun p => match p.2 with
         | some g => oracleDist floatTrig fSqrt fAtan2
             (faceArr lon p.1) (faceArr lat p.1) (faceArr lon g) (faceArr lat g)
-        | none => 0.0)))
-  | "C16.oracle.node" => do
+        | none => 0.0))))
+  , ("C16.oracle.node", fun args => do
       let (lon, lat, en) ← run (do let lon ← floats; let lat ← floats; let en ← enP; pure (lon, lat, en)) args
       pure (encFloats (en.map (fun p => oracleDist floatTrig fSqrt fAtan2
-        (nodeArr lon p.1) (nodeArr lat p.1) (nodeArr lon p.2) (nodeArr lat p.2))))
-  | "C16.model.face" => do
+        (nodeArr lon p.1) (nodeArr lat p.1) (nodeArr lon p.2) (nodeArr lat p.2)))))
+  , ("C16.model.face", fun args => do
       let (lon, lat, ef) ← run (do let lon ← floats; let lat ← floats; let ef ← efP; pure (lon, lat, ef)) args
-      pure (encFloats (edgeFaceDist floatTrig (faceArr lon) (faceArr lat) ef))
-  | "C16.model.face.asis" => do
+      pure (encFloats (edgeFaceDist floatTrig (faceArr lon) (faceArr lat) ef)))
+  , ("C16.model.face.asis", fun args => do
       let (lon, lat, ef) ← run (do let lon ← floats; let lat ← floats; let ef ← efP; pure (lon, lat, ef)) args
-      pure (encFloats (edgeFaceDistAsIs floatTrig (nodeArr lon) (nodeArr lat) ef))
-  | "C16.model.node" => do
+      pure (encFloats (edgeFaceDistAsIs floatTrig (nodeArr lon) (nodeArr lat) ef)))
+  , ("C16.model.node", fun args => do
       let (lon, lat, en) ← run (do let lon ← floats; let lat ← floats; let en ← enP; pure (lon, lat, en)) args
-      pure (encFloats (edgeNodeDist floatTrig (nodeArr lon) (nodeArr lat) en))
+      pure (encFloats (edgeNodeDist floatTrig (nodeArr lon) (nodeArr lat) en)))
   -- differences (exact) -------------------------------------------------------------------
-  | "C16.diff.face" => do
+  , ("C16.diff.face", fun args => do
       let (ef, nLead, nElem, data, impl) ← run (do
         let ef ← efP; let a ← nat; let b ← nat; let d ← floats; let i ← floats; pure (ef, a, b, d, i)) args
       if data.length != nLead * nElem || impl.length != nLead * ef.length then pure "fail shape 0"
@@ -190,8 +191,8 @@ def handle (cmd : String) (args : List Int) : Option String :=
         let os := chunks ef.length impl nLead
         match firstBad nLead (fun s => diffFaceSpecB fAbs ef (faceArr (ds.getD s [])) (os.getD s [])) with
         | none => pure "ok"
-        | some s => pure s!"fail diff_face {s}"
-  | "C16.diff.node" => do
+        | some s => pure s!"fail diff_face {s}")
+  , ("C16.diff.node", fun args => do
       let (en, nLead, nElem, data, impl) ← run (do
         let en ← enP; let a ← nat; let b ← nat; let d ← floats; let i ← floats; pure (en, a, b, d, i)) args
       if data.length != nLead * nElem || impl.length != nLead * en.length then pure "fail shape 0"
@@ -200,10 +201,10 @@ def handle (cmd : String) (args : List Int) : Option String :=
         let os := chunks en.length impl nLead
         match firstBad nLead (fun s => diffNodeSpecB fAbs en (nodeArr (ds.getD s [])) (os.getD s [])) with
         | none => pure "ok"
-        | some s => pure s!"fail diff_node {s}"
+        | some s => pure s!"fail diff_node {s}")
   -- gradient ------------------------------------------------------------------------------
   -- exact: `dist` is the table the gradient must divide by, bit for bit
-  | "C16.grad.exact" => do
+  , ("C16.grad.exact", fun args => do
       let (ef, dist, nLead, nElem, data, impl) ← run (do
         let ef ← efP; let ds ← floats; let a ← nat; let b ← nat; let d ← floats; let i ← floats
         pure (ef, ds, a, b, d, i)) args
@@ -214,9 +215,9 @@ def handle (cmd : String) (args : List Int) : Option String :=
         let os := chunks ef.length impl nLead
         match firstBad nLead (fun s => gradSpecB fAbs ef dist (faceArr (ds.getD s [])) (os.getD s [])) with
         | none => pure "ok"
-        | some s => pure s!"fail grad_eq_diff_div_dist {s}"
+        | some s => pure s!"fail grad_eq_diff_div_dist {s}")
   -- tolerant: `dist` are oracle centre-to-centre arcs in radians
-  | "C16.grad.oracle" => do
+  , ("C16.grad.oracle", fun args => do
       let (eps, ef, dist, nLead, nElem, data, impl) ← run (do
         let eps ← float; let ef ← efP; let ds ← floats; let a ← nat; let b ← nat; let d ← floats; let i ← floats
         pure (eps, ef, ds, a, b, d, i)) args
@@ -243,9 +244,9 @@ def handle (cmd : String) (args : List Int) : Option String :=
                 else some "grad_eq_diff_div_centre_dist")
         match (List.range nLead).findSome? (fun s => (okSlice s).map (fun c => (c, s))) with
         | none => pure "ok"
-        | some (c, s) => pure s!"fail {c} {s}"
+        | some (c, s) => pure s!"fail {c} {s}")
   -- normalised: per leading slice, against the model's own normalisation of diff / dist
-  | "C16.grad.norm" => do
+  , ("C16.grad.norm", fun args => do
       let (tol, ef, dist, nLead, nElem, data, impl) ← run (do
         let tol ← float; let ef ← efP; let ds ← floats; let a ← nat; let b ← nat; let d ← floats; let i ← floats
         pure (tol, ef, ds, a, b, d, i)) args
@@ -258,7 +259,14 @@ def handle (cmd : String) (args : List Int) : Option String :=
           let g := gradEdge fAbs ef dist (faceArr (ds.getD s []))
           let o := os.getD s []
           let n2 := sumsq g
-          if n2 == 0.0 || !(n2 == n2) || n2 == (1.0 / 0.0) then (none, true)   -- 0/0: not judged
+          if !(n2 == n2) || n2 == (1.0 / 0.0) then (none, true)   -- non-finite gradient: not judged
+          else if n2 == 0.0 then
+            -- zero gradient (constant slice / no two-face edge): the quotient is 0/0.  What the code
+            -- returns there is the IEEE value of the model, NaN on every edge; the only other value
+            -- compatible with "zero for constant fields" is 0 on every edge.  Anything else is wrong.
+            let allNaN := o.length == ef.length && o.all (fun x => !(x == x))
+            let allZero := o.length == ef.length && o.all (fun x => x == 0.0)
+            if allNaN || allZero then (none, true) else (some "normalized_zero_gradient_slice", true)
           else
             let want := normalizeRow fSqrt g
             let unit := leB (Float.abs (fSqrt (sumsq o) - 1.0)) tol
@@ -271,30 +279,30 @@ def handle (cmd : String) (args : List Int) : Option String :=
         let degenerate := (rs.filter (·.2)).length
         match (List.range nLead).findSome? (fun s => ((rs.getD s (none, false)).1).map (fun c => (c, s))) with
         | none => pure s!"ok - 0 {degenerate}"
-        | some (c, s) => pure s!"fail {c} {s} {degenerate}"
+        | some (c, s) => pure s!"fail {c} {s} {degenerate}")
   -- the as-is model of the normalisation, to confirm a diagnosis
-  | "C16.grad.norm.asis" => do
+  , ("C16.grad.norm.asis", fun args => do
       let (ef, dist, nLead, nElem, data) ← run (do
         let ef ← efP; let ds ← floats; let a ← nat; let b ← nat; let d ← floats
         pure (ef, ds, a, b, d)) args
       let ds := chunks nElem data nLead
-      pure (encFloats (gradientNDAsIs fAbs fSqrt true ef dist (ds.map faceArr)).flatten)
+      pure (encFloats (gradientNDAsIs fAbs fSqrt true ef dist (ds.map faceArr)).flatten))
   -- dims / dispatch -----------------------------------------------------------------------
-  | "C16.dims" => do
+  , ("C16.dims", fun args => do
       let (dims, impl) ← run (do let a ← ints; let b ← ints; pure (a, b)) args
       -- codes: 0 n_face, 1 n_node, 2 n_edge, ≥ 10 a leading dimension
-      pure (encBool (impl == resultDims (2 : Int) dims))
-  | "C16.centre" => do
+      pure (encBool (impl == resultDims (2 : Int) dims)))
+  , ("C16.centre", fun args => do
       let dims ← run ints args
-      pure (centreCode (centreOf (0 : Int) 1 2 dims))
-  | "C16.dispatch.diff" => do
+      pure (centreCode (centreOf (0 : Int) 1 2 dims)))
+  , ("C16.dispatch.diff", fun args => do
       let (c, d) ← run (do let c ← nat; let d ← nat; pure (c, d)) args
-      pure (outcomeCode (differenceDispatch (centreOfCode c) (destOf d)))
-  | "C16.dispatch.grad" => do
+      pure (outcomeCode (differenceDispatch (centreOfCode c) (destOf d))))
+  , ("C16.dispatch.grad", fun args => do
       let c ← run nat args
-      pure (outcomeCode (gradientDispatch (centreOfCode c)))
+      pure (outcomeCode (gradientDispatch (centreOfCode c))))
   -- source-supplied distances -------------------------------------------------------------
-  | "C16.mpas" => do
+  , ("C16.mpas", fun args => do
       let (dual, dv, dc, en, ef) ← run (do
         let dual ← bool; let dv ← floats; let dc ← floats; let en ← floats; let ef ← floats
         pure (dual, dv, dc, en, ef)) args
@@ -303,7 +311,14 @@ def handle (cmd : String) (args : List Int) : Option String :=
                  (if ef == want.2 then [] else ["supplied_edge_face_distances"])
       let asis := mpasDistancesAsIs dual dv dc
       let isAsIs := en == asis.1 && ef == asis.2
-      pure (if bad.isEmpty then "ok" else s!"fail {",".intercalate bad} {encBool isAsIs}")
-  | _ => none
+      pure (if bad.isEmpty then "ok" else s!"fail {",".intercalate bad} {encBool isAsIs}"))
+  ]
+
+def handle (cmd : String) (args : List Int) : Option String :=
+  if cmd == "C16.commands" then some (" ".intercalate (table.map (·.1)))
+  else match table.lookup cmd with
+    | some f => f args
+    | none => none
+
 
 end UxVerif.Driver.C16
